@@ -217,6 +217,18 @@ theorem ctorCore_ok {i : CtorIn} {b : Body} (h : ctorCore i = some b) :
   simp only [] at h
   split at h
   · cases h
-  · exact build_ok h
+  · have := build_ok h
+    refine ⟨this.1, this.2.1, ?_⟩
+    intro hg
+    apply this.2.2
+    simp only [derivsGiven] at hg ⊢
+    cases hd : i.derivs with
+    | some l => simpa [hd] using hg
+    | none =>
+      rw [hd] at hg
+      cases ha : i.arg with
+      | qube a => simpa [ha, vectorArg] using hg
+      | val a => simp [ha] at hg
+      | bad => simp [ha] at hg
 
 end PMV.C05L
